@@ -239,11 +239,11 @@ def cells():
                         twin=False,
                         bounds='A 2x2 of class %s, b %s symbolic; default iteration cap; all breakdown paths' % (cls, bk), **big))
     for mi in (1, None):
-        out.append(Cell('gmres[n=2,diag(1,2),b=beta(1,1),max_iter=%s]' % mi, 'c04:gmres', dict(n=2, cls='diag_1_2', bkind='scaled_ones', max_iter=mi), tier='quick', twin=False,
+        out.append(Cell('gmres[n=2,diag(1,2),b=beta(1,1),max_iter=%s]' % mi, 'c04:gmres', dict(n=2, cls='diag_1_2', bkind='scaled_ones', max_iter=mi), tier='quick', twin=(mi == 1), twin_timeout_s=300,
                         bounds='A = diag(1, 2) concrete, b = beta (1,1)^T with beta symbolic (||b|| from 0 to inf): the first restart cycle is inexact', **big))
     for cls, mi, tier in [('identity', 1, 'quick'), ('scaled_identity', 1, 'quick'), ('diag_1_2', 1, 'thorough'), ('diag_real', 1, 'thorough'), ('real', 1, 'thorough'), ('identity', 0, 'quick')]:
         out.append(Cell('gmres[n=2,%s,max_iter=%d]' % (cls, mi), 'c04:gmres', dict(n=2, cls=cls, bkind='real', max_iter=mi), tier=tier,
-                        twin=(cls == 'identity' and mi == 1), twin_timeout_s=300, bounds='iteration cap %d' % mi, **big))
+                        twin=False, bounds='iteration cap %d' % mi, **big))
     for cls, tier in [('identity', 'quick'), ('diag_real', 'thorough')]:
         out.append(Cell('gmres[n=2,%s,sparse]' % cls, 'c04:gmres', dict(n=2, cls=cls, bkind='real', sparse=True), tier=tier, twin=False,
                         bounds='sparse storage of A', **big))
